@@ -180,3 +180,51 @@ def run_configs(prop, tier, configs, depth_of, workers=None, level="model_checki
     }
     cov.update(extra_cov)
     return rep.finish(level, cov, assumptions=assumptions or [])
+
+
+def replay_witness(prop, path, configs_fn):
+    """bin/xv Cnn --replay <file>: re-execute the recorded history on the real code and report whether the signature recurs.
+
+    E1 witnesses carry (config label, history); store-level ones (backend, history).  Anything else falls back to
+    re-running the quick tier of the check and looking for the signature.
+    """
+    import json
+    import multiprocessing as mp
+
+    d = json.load(open(path))
+    sig = d.get("signature", "")
+    w = d.get("witness", {})
+    print("replaying %s" % sig)
+    print("summary: %s" % d.get("summary"))
+    hist = w.get("history")
+    if hist is not None and (w.get("config") or w.get("backend")):
+        hist = [tuple(tuple(x) if isinstance(x, list) else x for x in op) for op in hist]
+        target = None
+        for tier in ("quick", "thorough"):
+            for cfg in configs_fn(tier):
+                if getattr(cfg, "label", None) == w.get("config"):
+                    target = cfg
+        if target is None and w.get("backend"):
+            target = StoreCfg(kinds=(w["backend"],), oracles={prop}, features={"restart", "etagargs"})
+        if target is not None:
+            with mp.get_context("fork").Pool(1) as pool:
+                got = pool.apply(_replay_job, (target, hist, prop))
+            for s_, e in got.items():
+                print("  reproduced: %s -- %s" % (s_, e["summary"]))
+            hit = any(s_ == sig or s_.split("|")[-1] == sig.split("|")[-1] for s_ in got)
+            print("REPRODUCED" if hit else "NOT REPRODUCED (the history now satisfies the oracle)")
+            return 1 if hit else 0
+    print("no replayable history in this witness; re-running the quick tier and looking for the signature")
+    return None
+
+
+def _replay_job(cfg, hist, prop):
+    s = cfg.make() if hasattr(cfg, "make") else davsys.DavSys(cfg)
+    try:
+        if hasattr(cfg, "oracles"):
+            cfg.oracles = set(cfg.oracles) | {prop}
+        s.replay(hist[:-1])
+        s.apply(hist[-1], check=True)
+        return {k: v for k, v in s.take_violations().items() if k.startswith(prop + "|")}
+    finally:
+        s.close()
